@@ -68,7 +68,7 @@ def _safe_repr_args(d):
 
 
 def run_cell(fn, pre_list, budget_s, per_path_timeout=None, max_samples=6, max_paths=None,
-             want_all_refutations=False):
+             want_all_refutations=False, extra_patches=None):
     """Explore `fn` over all arguments satisfying every predicate of `pre_list`.
 
     Returns a dict with status in {CONFIRMED, REFUTED, UNKNOWN, VACUOUS, ERROR}.
@@ -108,6 +108,8 @@ def run_cell(fn, pre_list, budget_s, per_path_timeout=None, max_samples=6, max_p
         hlib._path_reset()
         with (condition_parser(options.analysis_kind), Patched(), COMPOSITE_TRACER,
               NoTracing(), StateSpaceContext(space)):
+            if extra_patches:
+                COMPOSITE_TRACER.patching_module.add(extra_patches)
             try:
                 pre_args = gen_args(sig)
                 args = deepcopyext(pre_args, CopyMode.REGULAR, {})
@@ -155,6 +157,9 @@ def run_cell(fn, pre_list, budget_s, per_path_timeout=None, max_samples=6, max_p
             except NotDeterministic:
                 status = VerificationStatus.UNKNOWN
                 res['unknown_reasons']['NotDeterministic'] = res['unknown_reasons'].get('NotDeterministic', 0) + 1
+            finally:
+                if extra_patches:
+                    COMPOSITE_TRACER.patching_module.pop(extra_patches)
             _analysis, exhausted = space.bubble_status(CallAnalysis(status))
         res['paths'] += 1
         if status is None:
